@@ -186,6 +186,23 @@ struct OnlyThere { w: u8 }
 #[derive(TS)]
 struct FlatThenName { #[ts(flatten)] first: OnlyThere, second: OnlyThere }
 
+// two instantiations of ONE generic type whose dependencies come from an associated type of the argument (the parameter is made
+// concrete, so the parent's `visit_generics` does not reach them): each instantiation has its own dependency list
+trait AsDriver { type Info; }
+#[derive(TS)]
+struct AsInfoA { a: i32 }
+#[derive(TS)]
+struct AsInfoB { b: String }
+struct AsDriverA;
+struct AsDriverB;
+impl AsDriver for AsDriverA { type Info = AsInfoA; }
+impl AsDriver for AsDriverB { type Info = AsInfoB; }
+#[derive(TS)]
+#[ts(concrete(D = AsDriverA))]
+struct AsInner<D: AsDriver> { info: D::Info }
+#[derive(TS)]
+struct AsRoot { x: AsInner<AsDriverA>, y: AsInner<AsDriverB> }
+
 struct Entry {
     name: &'static str,
     tid: TypeId,
@@ -258,6 +275,8 @@ fn universe() -> Vec<Entry> {
         entry::<NoExt>("NoExt"), entry::<OtherExt>("OtherExt"), entry::<DotDir>("DotDir"), entry::<Hidden>("Hidden"),
         entry::<ShDots2>("ShDots2"), entry::<HiddenDep>("HiddenDep"), entry::<DotA>("DotA"), entry::<UsesDotNames>("UsesDotNames"),
         entry::<OnlyHere>("OnlyHere"), entry::<InlThenName>("InlThenName"), entry::<OnlyThere>("OnlyThere"), entry::<FlatThenName>("FlatThenName"),
+        entry::<AsInfoA>("AsInfoA"), entry::<AsInfoB>("AsInfoB"), entry::<AsInner<AsDriverA>>("AsInner<AsDriverA>"),
+        entry::<AsInner<AsDriverB>>("AsInner<AsDriverB>"), entry::<AsRoot>("AsRoot"),
     ]
 }
 
